@@ -99,43 +99,79 @@ impl Parse for Expr {
 fn is_moderately_nested(cursor: Cursor<'_>) -> bool {
     const LIMIT: usize = 64;
 
-    // Every open group, with the number of assignments (`a = b = ..`, which nest to the right
-    // without any delimiter) since its last `;`.
-    let mut levels = vec![(cursor, 0)];
-    // Prefix operators (`!!!..`, `&&&..`, also `&'a &'a ..` in a type).
+    /// What is known about the tokens of one open group, read as a sequence of expressions.
+    #[derive(Clone, Copy)]
+    struct Level {
+        /// Closures returning closures (`|a| |b| ..`, counted twice) and assignments
+        /// (`a = b = ..`) of the current expression: both nest to the right without any
+        /// delimiter.
+        chain: usize,
+        /// Whether a closure head (`|a: u8, b: u8|`) is open.
+        in_head: bool,
+        /// Whether an operand is expected next: a `|` is then the start of a closure head, and
+        /// the "or" operator otherwise.
+        expects_operand: bool,
+        /// Whether the first half of a `||` operator was the previous token.
+        in_or_operator: bool,
+    }
+    let fresh = Level {
+        chain: 0,
+        in_head: false,
+        expects_operand: true,
+        in_or_operator: false,
+    };
+
+    let mut levels = vec![(cursor, fresh)];
+    // Prefix operators (`!!!..`, `&mut &mut ..`, also `&'a &'a ..` in a type).
     let mut run = 0;
     // Prefix keywords taking an operand (`return return ..`, `break break ..`).
     let mut keyword_run = 0;
-    // Closures returning closures (`|a| |b| ..`: a head is closed where the next one opens) and
-    // arrows (`fn() -> fn() -> ..`) nest to the right as well.
-    let mut right_nesting = 0;
+    // Arrows (`fn() -> fn() -> ..`) nest to the right as well.
+    let mut arrows = 0;
     let mut previous = ' ';
     let mut previous_is_joint = false;
-    while let Some((cursor, mut assignments)) = levels.pop() {
+    while let Some((cursor, mut level)) = levels.pop() {
         let Some((tt, next)) = cursor.token_tree() else {
             continue;
         };
         let mut inside = None;
+        let in_or_operator = std::mem::take(&mut level.in_or_operator);
         match tt {
             proc_macro2::TokenTree::Group(_) => {
                 inside = cursor.any_group().map(|(inside, _, _, _)| inside);
                 (run, keyword_run) = (0, 0);
                 (previous, previous_is_joint) = (' ', false);
+                level.expects_operand = false;
             }
             proc_macro2::TokenTree::Punct(p) => {
                 run += 1;
                 keyword_run = 0;
+                let mut expects_operand = true;
                 match p.as_char() {
-                    '|' if previous == '|' => right_nesting += 2,
-                    '>' if previous == '-' && previous_is_joint => right_nesting += 1,
+                    '|' if in_or_operator => {}
+                    '|' if level.in_head => {
+                        level.in_head = false;
+                        level.chain += 2;
+                    }
+                    '|' if level.expects_operand => level.in_head = true,
+                    '|' => {
+                        level.in_or_operator = p.spacing() == proc_macro2::Spacing::Joint;
+                    }
+                    '>' if previous == '-' && previous_is_joint => arrows += 1,
                     // Not `==`, `!=`, `<=`, `>=` and `=>`.
                     '=' if p.spacing() == proc_macro2::Spacing::Alone
-                        && !(previous_is_joint && matches!(previous, '=' | '!' | '<' | '>')) =>
+                        && !(previous_is_joint && matches!(previous, '=' | '!' | '<' | '>'))
+                        && !level.in_head =>
                     {
-                        assignments += 1;
+                        level.chain += 1;
                     }
-                    ';' => assignments = 0,
+                    ';' => level.chain = 0,
+                    ',' if !level.in_head => level.chain = 0,
+                    '?' => expects_operand = false,
                     _ => {}
+                }
+                if !level.in_head {
+                    level.expects_operand = expects_operand;
                 }
                 previous = p.as_char();
                 previous_is_joint = p.spacing() == proc_macro2::Spacing::Joint;
@@ -146,22 +182,42 @@ fn is_moderately_nested(cursor: Cursor<'_>) -> bool {
                 keyword_run += 1;
                 run = 0;
                 (previous, previous_is_joint) = (' ', false);
+                level.expects_operand = true;
             }
-            // A lifetime doesn't end a run of `&`s.
-            proc_macro2::TokenTree::Ident(_) if previous == '\'' => previous = ' ',
-            _ => {
-                (run, keyword_run) = (0, 0);
+            // `&mut &mut ..` and `&raw const ..` are still one run of prefix operators, and a
+            // lifetime doesn't end a run of `&`s (`&'a &'a ..`).
+            proc_macro2::TokenTree::Ident(i)
+                if i == "mut" || i == "raw" || i == "const" || previous == '\'' =>
+            {
                 (previous, previous_is_joint) = (' ', false);
             }
+            proc_macro2::TokenTree::Ident(i) => {
+                (run, keyword_run) = (0, 0);
+                (previous, previous_is_joint) = (' ', false);
+                if !level.in_head {
+                    // The keywords an operand follows; any other identifier is an operand.
+                    level.expects_operand = [
+                        "move", "async", "static", "in", "if", "else", "match", "while", "let",
+                        "unsafe", "loop", "as",
+                    ]
+                    .iter()
+                    .any(|keyword| i == keyword);
+                }
+            }
+            proc_macro2::TokenTree::Literal(_) => {
+                (run, keyword_run) = (0, 0);
+                (previous, previous_is_joint) = (' ', false);
+                level.expects_operand = false;
+            }
         }
-        levels.push((next, assignments));
+        levels.push((next, level));
         if let Some(inside) = inside {
-            levels.push((inside, 0));
+            levels.push((inside, fresh));
         }
         if levels.len() > LIMIT
             || run > LIMIT
             || keyword_run > LIMIT
-            || right_nesting + levels.iter().map(|(_, n)| n).sum::<usize>() > 4 * LIMIT
+            || arrows + levels.iter().map(|(_, l)| l.chain).sum::<usize>() > 4 * LIMIT
         {
             return false;
         }
